@@ -1,4 +1,5 @@
 """Valve A2S family: how the generic property runners drive it."""
+from props import malformed
 
 FAMILY = dict(send_units=3, 
     name="valve", nargs=4, gen="valve", retries=3, port=0, gather=2, decode_property="C02", entry="valve",
@@ -178,7 +179,7 @@ def c10_build_multi(valid, vecs, r, new_id):
                 newds += pre
                 faults += [False] * len(pre) + [True]
             elif e == "M":
-                newds += pre + [b"\xff\xff"]
+                newds += pre + [malformed.CURRENT]
                 faults += [False] * (len(pre) + 1)
             else:
                 newds += groups[k]
